@@ -194,6 +194,26 @@ class SymCtx:
             raise Unsupported("count_below needs a tuple term")
         return self.engine.count_below(tau, v, upto)
 
+    def tuple_from(self, name, t, n, f):
+        """the tuple (f(t, 0), ..., f(t, n-1)) as a TERM depending on the tuple t: one function symbol per
+        name (pointwise definitional axiom; exists in the intended model)"""
+        from .values import TEL, TLEN, TUP, fresh_fun, from_T
+
+        tau = t.meta.get("tterm")
+        if tau is None:
+            raise Unsupported("tuple_from needs a tuple term")
+        eng = self.engine
+        cache = eng.__dict__.setdefault("_tuple_from", {})
+        if name not in cache:
+            M_ = fresh_fun("tmap_" + name, TUP, TUP)
+            tv = z3.Const(f"tm_t!{name}", TUP)
+            j = fresh("tmj")
+            eng.global_axioms.append(z3.ForAll([tv], TLEN(M_(tv)) == Z(n), patterns=[M_(tv)], qid="tmap-len"))
+            eng.global_axioms.append(z3.ForAll([tv, j], TEL(M_(tv), j) == Z(f(from_T(tv), IntV(j))), patterns=[TEL(M_(tv), j)], qid="tmap-el"))
+            cache[name] = M_
+            eng.__dict__.setdefault("_map_funs", {})[("tmap", name)] = M_
+        return from_T(cache[name](tau))
+
     def through(self, p, t):
         """the tuple (p[e] for e in t)"""
         from .values import from_T
@@ -518,6 +538,9 @@ class RunCtx:
     def count_below(self, t, v, upto=None):
         k = len(t) if upto is None else upto
         return sum(1 for j in range(k) if t[j] < v)
+
+    def tuple_from(self, name, t, n, f):
+        return tuple(f(t, j) for j in range(n))
 
     def through(self, p, t):
         return tuple(p[e] if 0 <= e < len(p) else -10 ** 9 for e in t)
